@@ -12,7 +12,11 @@ SPEC = {
                    "through the real crashmonitor.Parent by child processes of the harness binary itself (nil dereference, "
                    "panic, index, nil map, inlined frames, methods, generics, crash in a non-first goroutine, 30-deep and "
                    "300-deep recursion, deadlock, a 200 KiB panic message, 20 frames of a function with a 300-byte name, a mix of "
-                   "long-named functions), each compared with the frames runtime.Callers reported while unwinding; "
+                   "long-named functions, a 1 MiB panic message, generic instantiations), each compared with the frames "
+                   "runtime.Callers reported while unwinding and each ALSO delivered on the stdin of a process running the real "
+                   "crashmonitor.Child (hooks as in the package's tests; kind `child`), as are 1 in 25 of the other reports "
+                   "and reports whose running goroutine straddles the 64 KiB / 256 KiB / 1 MiB byte mark (inserted message "
+                   "line); symbol-position lines that begin with '(' or have an empty symbol; "
                    "then per 20 cases: 8 rewrites of every non-PC field of a real report (messages, arguments, symbols "
                    "other than runtime.sigpanic, file paths, header fields, sentinel spelling, pc spelling 0x/0X/0b/0o/"
                    "octal/decimal/underscores, other goroutines), 5 outcome-changing mutations (sentinel missing/odd/late, "
@@ -27,7 +31,7 @@ SPEC = {
                    "instead runs strconv.ParseUint(s,0,64) resp. fmt.Sscanf(line,\"sentinel %x\") directly on generated "
                    "numerals against the model's parse_uint0 / scan_sentinel). distinct = distinct "
                    "case lines; every case compares status, pc list and name with the model and evaluates the oracles "
-                   "(shape, 16-frame cap, length <= 4096 and truncation marker, DecodeStack(name) = one line Function:line,+0xoff "
+                   "(total: no panic; Child treats only < 2 lines as no crash; shape, 16-frame cap, length <= 4096 and truncation marker, DecodeStack(name) = one line Function:line,+0xoff "
                    "per frame runtime.CallersFrames reports for the pcs [name-lists-frames], equal projection -> equal name, equal pcs -> equal name, relocation "
                    "invariance, genuine frames) on the implementation's output"),
     ],
